@@ -138,21 +138,33 @@ pub fn check(c: &PathCase, obs: &mut Obs) -> Result<(), String> {
                 }
             } else {
                 obs.label("unknown-comparison");
-                // every sure item, in order; nothing outside the may-set, in order
-                let mut gi = 0;
+                // Is `got` the candidate sequence with every sure item kept and some subset of
+                // the unsure ones dropped? Equal encodings can occur among sure and unsure
+                // candidates, so this is a reachability computation, not a greedy scan.
+                let mut reach: std::collections::BTreeSet<usize> = [0usize].into_iter().collect();
                 for (it, e) in items.iter().zip(&all) {
-                    if gi < got.len() && got[gi] == *e {
-                        gi += 1;
-                    } else if it.sure {
-                        return Err(ctx(&format!(
-                            "selected {}\n  which misses or misorders an item the path certainly denotes; candidates are {}",
-                            show_items(&got),
-                            show_items(&all)
-                        )));
+                    let mut next = std::collections::BTreeSet::new();
+                    for g in &reach {
+                        if !it.sure {
+                            next.insert(*g);
+                        }
+                        if *g < got.len() && got[*g] == *e {
+                            next.insert(*g + 1);
+                        }
+                    }
+                    reach = next;
+                    if reach.is_empty() {
+                        break;
                     }
                 }
-                if gi != got.len() {
-                    return Err(ctx(&format!("selected {}\n  which holds items outside {}", show_items(&got), show_items(&all))));
+                if !reach.contains(&got.len()) {
+                    let sure: Vec<Vec<u8>> = items.iter().zip(&all).filter(|(i, _)| i.sure).map(|(_, e)| e.clone()).collect();
+                    return Err(ctx(&format!(
+                        "selected {}\n  which is not the candidate sequence {} with only uncertain items left out; items the path certainly denotes: {}",
+                        show_items(&got),
+                        show_items(&all),
+                        show_items(&sure)
+                    )));
                 }
             }
             let ex = r_exists.map_err(|e| ctx(&format!("path_exists failed with {e:?}")))?;
